@@ -44,7 +44,12 @@ Copy == /\ (IsEv("copy") \/ IsEv("assign")) /\ E.exc = ""
 Swap == /\ IsEv("swap") /\ E.exc = "" /\ UNCHANGED H
         /\ (Mode = "hash" => (Abs(E.a) = Abs(E.b0) /\ Abs(E.b) = Abs(E.a0)))        \* the two values exchanged
 
-Next == Plain \/ Cmp \/ Hash \/ Copy \/ Swap
+(* two containers that the script built with the same bindings (different insertion orders, surplus inserted and removed, *)
+(* bindings overwritten and restored): whatever the history, they are equal and hash equally                            *)
+Same == /\ IsEv("same") /\ E.exc = "" /\ UNCHANGED H
+        /\ (Mode = "hash" => (E.eq = 1 /\ E.eqr = 1 /\ E.h = E.h2))
+
+Next == Plain \/ Cmp \/ Hash \/ Copy \/ Swap \/ Same
 Spec == Init /\ [][Next]_vars
 Accepted == LET d == TLCGet("stats").diameter IN
             /\ PrintT(<<"TRACE_MATCHED", d - 1, Len(T)>>)
